@@ -83,11 +83,14 @@ def join_differs():
 def scratch():
     p = os.path.join(BUILD, 'tmp'); os.makedirs(p, exist_ok=True); return p
 
-def prune_cache(keep=3):
+def prune_cache(keep=6):
+    """old library versions' builds are dropped; never one touched in the last three hours (another check may be using it)"""
     root = os.path.join(BUILD, 'cache')
     if not os.path.isdir(root): return
+    now = time.time()
     ds = sorted((os.path.getmtime(os.path.join(root, d)), d) for d in os.listdir(root))
-    for _, d in ds[:-keep]: shutil.rmtree(os.path.join(root, d), ignore_errors=True)
+    for mt, d in ds[:-keep]:
+        if now - mt > 3 * 3600: shutil.rmtree(os.path.join(root, d), ignore_errors=True)
 
 def build_one(tu_text, flavour, extra_flags='', name='tu', guard=True):
     """compile one generated TU (cached on content); returns (binary path or None, compiler output)"""
@@ -113,6 +116,7 @@ def build_one(tu_text, flavour, extra_flags='', name='tu', guard=True):
         # a compiler killed by the machine (memory pressure, signals) says nothing about the sources: retry once, never cache
         if r.returncode < 0 or any(t in out for t in ('Killed', 'internal compiler error', 'memory exhausted', 'Cannot allocate', 'Resource temporarily unavailable')):
             out = 'TRANSIENT: ' + out; time.sleep(5); continue
+        os.makedirs(d, exist_ok=True)
         with open(os.path.join(d, 'FAILED'), 'w') as f: f.write(out)
         return None, out
     else:
